@@ -58,7 +58,7 @@ TABLE = [
      "length identical to the unit decoded alone (PDUs may instead be refused); 2..4 units back to back recovered by decode/advance; accepted noise buffers that begin with a unit decode like their first N octets",
      ORACLE_NOTE + "; observation functions read every user-visible field", "DESIGN.md section 4 C09"),
     ("C10", "exploration",
-     PBT + " over a table of 53 public decoder entry points: arbitrary octets, exhaustive truncation points and header/length-field substitutions of valid units, CRC re-patching; oracle = allowed-exception table + watchdog" + ENV,
+     PBT + " over a table of 55 public decoder entry points: arbitrary octets, exhaustive truncation points and header/length-field substitutions of valid units, CRC re-patching; oracle = allowed-exception table + watchdog" + ENV,
      "per decoder family: arbitrary and structured-noise buffers, every strict prefix of generated valid units (self-delimiting units must be refused), single-octet substitutions at every header index and "
      "length-field rewrites incl. consistently shortened units, with the checksum re-patched over the declared extent in half the cases; any outcome other than a return or a documented error class (or a 10 s watchdog expiry) is a violation",
      ORACLE_NOTE + "; the table of documented error classes in vf/excs.py; termination is observed with a watchdog, not proved", "DESIGN.md section 4 C10"),
